@@ -145,7 +145,7 @@ CLAIMED["C09"] = ("Proof (deductive, all field values and contents) against a tr
   "for each of 44 message types the encoding of the mandatory part is exactly header (EPD, security header type or PDU session id + PTI, message type) followed by the mandatory fields in table order with the tabulated widths; for each of the 160 (message, optional IE) pairs the IE appears after the mandatory part with the tabulated IEI, a length field of the tabulated width carrying the number of value octets, and the tabulated size for fixed formats; "
   "structural obligations (go/types): every MsgType constant and every <Message><IE>Type constant has the tabulated value, every optional IE of a message struct is in the table of the message and vice versa, every IE value type can carry its tabulated format. Two genuine defects found and repaired in /repo (Requested QoS rules with a one-octet length, Last visited registered TAI with seven value octets).",
   "The tables are transcribed from the standard from memory (no copy of TS 24.501 is available offline); every row agreed with the library except the two repaired defects, which are corroborated inside the library itself (AuthorizedQosRules carries the same IE with two length octets; the accessors of LastVisitedRegisteredTAI use six octets). Optional IEs of the standard that the library does not implement are not listed. "
-  "The ten octets of the mandatory parts that hold two half-octet fields have their own lemmas (which accessor owns which bits), and the messages the emulator sends are proved octet by octet as built by nasTestpacket's constructors (AUTHENTICATION RESPONSE, REGISTRATION REQUEST in both forms, SECURITY MODE COMPLETE, REGISTRATION COMPLETE, SERVICE REQUEST, DEREGISTRATION REQUEST, UL NAS TRANSPORT with PDU SESSION ESTABLISHMENT REQUEST / RELEASE REQUEST / RELEASE COMPLETE) — a third defect found and repaired there (SERVICE REQUEST carried a 5GS mobile identity of type 'no identity'). The multi-octet IE values the emulator fills through accessors (integrity protection maximum data rate, 5G-S-TMSI, S-NSSAI) have hand-written lemmas from TS 24.501 9.11.4.7 / 9.11.3.4 / 9.11.2.8; a fourth defect found and repaired there (SetAMFSetID cleared the AMF pointer). Accessor sweep: 553 generated lemmas state, for every accessor pair of nasType whose field lies inside one octet, is a uint16 spanning octets or is a whole-octet array, what the library's own layout annotation (Row, sBit, len) says — setter places exactly those bits and nothing else, getter reads them; that decides agreement of the code with its layout table, not of the table with the standard. NOT decided: slice-valued IE contents, the values chosen by the constructors for dummy fields (IMEISV digits, PTI), SECURITY PROTECTED 5GS NAS MESSAGE. Same assumed models of bytes.Buffer / encoding/binary as C08.",
+  "The ten octets of the mandatory parts that hold two half-octet fields have their own lemmas (which accessor owns which bits), and the messages the emulator sends are proved octet by octet as built by nasTestpacket's constructors (AUTHENTICATION RESPONSE, REGISTRATION REQUEST in both forms, SECURITY MODE COMPLETE, REGISTRATION COMPLETE, SERVICE REQUEST, DEREGISTRATION REQUEST, UL NAS TRANSPORT with PDU SESSION ESTABLISHMENT REQUEST / RELEASE REQUEST / RELEASE COMPLETE) — a third defect found and repaired there (SERVICE REQUEST carried a 5GS mobile identity of type 'no identity'). The multi-octet IE values the emulator fills through accessors (integrity protection maximum data rate, 5G-S-TMSI, S-NSSAI) have hand-written lemmas from TS 24.501 9.11.4.7 / 9.11.3.4 / 9.11.2.8; a fourth defect found and repaired there (SetAMFSetID cleared the AMF pointer). Accessor sweep: 553 generated lemmas state, for every accessor pair of nasType whose field lies inside one octet, is a uint16 spanning octets or is a whole-octet array, what the library's own layout annotation (Row, sBit, len) says — setter places exactly those bits and nothing else, getter reads them; that decides agreement of the code with its layout table, not of the table with the standard. NOT decided: slice-valued IE contents, the values chosen by the constructors for dummy fields (IMEISV digits, PTI), SECURITY PROTECTED 5GS NAS MESSAGE. The check also runs every round-trip lemma of C08 (decode direction: with the layout of the encoding, Decode(Encode(m)) = m is what decoding a message built by an independent encoder needs). Same assumed models of bytes.Buffer / encoding/binary as C08.",
   "DESIGN.md §I.2 C09")
 
 PENDING = {
